@@ -153,6 +153,13 @@ func wirePrefix(dir string, sid int64, idx int, total, off, n int) []byte {
 // identify returns "idx:n" if the received message is message idx (its
 // marshalled form equals the keyed payload of that size) for some idx < limit,
 // "-:0" for the empty message, "CORRUPT:n" otherwise.
+// dirtyTarget is a message object that still holds what an earlier RPC left in it: gRPC lets an
+// application reuse its message objects (the stock codec resets the target before decoding), so after
+// a successful receive nothing of this may be left - not even when the message received is empty.
+func dirtyTarget() *wrapperspb.BytesValue {
+	return &wrapperspb.BytesValue{Value: []byte("STALE-CONTENT-OF-A-REUSED-MESSAGE-OBJECT")}
+}
+
 func identify(dir string, sid int64, m *wrapperspb.BytesValue, limit int) string {
 	b, _ := proto.Marshal(m)
 	if len(b) == 0 {
@@ -316,10 +323,10 @@ func (w *sworld) watchCtx(ctx context.Context, sid int64) {
 
 func (w *sworld) recvLoop(hs *hstream, recv func(m any) error, opName string) {
 	for range hs.recvQ {
-		var m wrapperspb.BytesValue
-		err := recv(&m)
+		m := dirtyTarget() // an application may reuse its message object: the codec must reset it
+		err := recv(m)
 		if err == nil {
-			w.done(hs.sid, opName, "msg:"+identify("c", hs.sid, &m, 64))
+			w.done(hs.sid, opName, "msg:"+identify("c", hs.sid, m, 64))
 		} else {
 			w.done(hs.sid, opName, fmtRes(err))
 		}
@@ -363,12 +370,12 @@ func (w *sworld) unaryHandler(_ any, ctx context.Context, dec func(any) error, _
 		return nil, status.Error(codes.Aborted, "no script")
 	}
 	w.watchCtx(ctx, hs.sid)
-	var m wrapperspb.BytesValue
-	if err := dec(&m); err != nil {
+	m := dirtyTarget() // an application may reuse its message object: the codec must reset it
+	if err := dec(m); err != nil {
 		w.done(hs.sid, "decode", fmtRes(err))
 		return nil, err
 	}
-	w.done(hs.sid, "decode", "msg:"+identify("c", hs.sid, &m, 64))
+	w.done(hs.sid, "decode", "msg:"+identify("c", hs.sid, m, 64))
 	for c := range hs.sendQ {
 		switch c.op {
 		case "sethdr":
